@@ -281,17 +281,11 @@ def tlc_cases(ctx, module, cfg, **kw):
         raise Undecided("generator %s/%s violated %s\n%s" % (module, cfg, r["violated"], r["out"][-3000:]))
     cases = []
     for l in r["out"].splitlines():
-        i = l.find("@@")
-        if i < 0 or i > 4:
+        m = re.match(r'^<<"@@", (".*")>>$', l)
+        if not m:
             continue
-        s = l[i + 2:].strip()
-        if s.endswith(">>"):
-            s = s[:-2]
-        s = s.strip().strip(",").strip()
-        if s.startswith('"') and s.endswith('"'):
-            s = json.loads(s)   # TLC prints strings quoted with escapes
         try:
-            cases.append(json.loads(s))
+            cases.append(json.loads(json.loads(m.group(1))))
         except Exception as ex:
             raise Undecided("cannot parse generated case %r: %s" % (l[:200], ex))
     return cases, r
